@@ -132,7 +132,7 @@ impl Property for C19 {
         }
     }
     fn rule(&self) -> &'static str {
-        "generated unified diffs (1..4 files, 1..3 hunks each, context 0..3, additions at the first line, pure deletions, new and deleted files via /dev/null, git-style prefixes a/ b/ and deeper, optional section text after the second @@, hunk headers without counts, body lines that contain header-like text mid-line) x -p 0..3 x filter pattern; the real rustfmt-format-diff runs with $RUSTFMT pointing at a recording stand-in with a scripted exit status; oracle (reference model computed from the generator's hunk model): the stand-in is invoked exactly when some matching file has a non-empty post-image hunk, with exactly the stripped post-image paths that match the filter and exactly the ranges [start, start+count-1] in patch order; the tool fails iff the stand-in fails; non-trivial = at least 2 files, a hunk with count 0 or without count, and a file filtered out"
+        "generated unified diffs (1..4 files, 1..3 hunks each, context 0..3, additions at the first line, pure deletions, new and deleted files via /dev/null, git-style prefixes a/ b/ and deeper, optional section text after the second @@, hunk headers without counts, body lines that contain header-like text mid-line) x -p 0..3 x filter pattern; the real rustfmt-format-diff runs with $RUSTFMT pointing at a recording stand-in with a scripted exit status (0, 1..3, or death from SIGKILL / SIGABRT / SIGTERM); oracle (reference model computed from the generator's hunk model): the stand-in is invoked exactly when some matching file has a non-empty post-image hunk, with exactly the stripped post-image paths that match the filter and exactly the ranges [start, start+count-1] in patch order; the tool fails iff the stand-in fails; non-trivial = at least 2 files, a hunk with count 0 or without count, and a file filtered out"
     }
     fn generate(&self, c: &mut Choices<'_>, _g: &GenCtx) -> Value {
         let context = c.below(4) as u32;
@@ -141,7 +141,8 @@ impl Property for C19 {
         let nfiles = 1 + c.below(4);
         let prefix_depth = p.max(1) as usize + c.below(2); // enough components to strip
         let git = c.flip();
-        let status = if c.chance(1, 5) { 1 + c.below(3) } else { 0 };
+        // 1..3: exit status; 200+n: the stand-in dies from signal n (KILL, ABRT, TERM)
+        let status = if c.chance(1, 5) { [1, 2, 3, 209, 206, 215][c.below(6)] } else { 0 };
         let sections_with_plus = c.chance(1, 4);
         let mut patch = String::new();
         let mut expected_files: Vec<String> = vec![];
@@ -218,7 +219,7 @@ impl Property for C19 {
         let script = dir.join("fake-rustfmt.sh");
         std::fs::write(
             &script,
-            "#!/bin/sh\nfor a in \"$@\"; do printf '%s\\n' \"$a\" >> \"$FAKE_LOG\"; done\nprintf 'END-OF-INVOCATION\\n' >> \"$FAKE_LOG\"\nexit $FAKE_STATUS\n",
+            "#!/bin/sh\nfor a in \"$@\"; do printf '%s\\n' \"$a\" >> \"$FAKE_LOG\"; done\nprintf 'END-OF-INVOCATION\\n' >> \"$FAKE_LOG\"\nif [ \"$FAKE_STATUS\" -ge 200 ]; then kill -$((FAKE_STATUS-200)) $$; sleep 5; fi\nexit $FAKE_STATUS\n",
         )
         .unwrap();
         std::fs::set_permissions(&script, std::fs::Permissions::from_mode(0o755)).unwrap();
